@@ -734,3 +734,42 @@ def contradictory_union_deck(rng):
     d.cells = cells
     d.mats = {1: [('13027', '1.0')], 2: [('26056', '-0.9'), ('6012', '-0.1')]}
     return d
+
+
+def aux_plane_deck(rng):
+    """a deck whose output shows the converter's two auxiliary union planes (a union none of whose members is a surface
+    or a plain intersection of surfaces) and that has a plane of its own at x = +1 or x = -1, where the auxiliary planes
+    are usually put: which planes are written, and under which numbers, must not depend on anything but the deck"""
+    d = D.Deck()
+    ids = sorted(rng.sample(range(1, 40), 8))
+    x = rng.choice([1.0, -1.0])
+    first = rng.choice(['px', 'p', 'rpp', 'px'])
+    if first == 'px':
+        d.surfs.append(D.Surf(ids[0], 'px', [x]))
+    elif first == 'p':
+        d.surfs.append(D.Surf(ids[0], 'p', [1.0, 0.0, 0.0, x]))
+    else:
+        d.surfs.append(D.Surf(ids[0], 'rpp', [min(x, x + 3.0 * x), max(x, x + 3.0 * x), -2.5, 2.5, -3.5, 3.5]))
+    d.surfs.append(D.Surf(ids[1], 'so', [rng.choice([4.5, 6.0])]))
+    d.surfs.append(D.Surf(ids[2], 'cz', [rng.choice([2.0, 3.5])]))
+    d.surfs.append(D.Surf(ids[3], 'py', [rng.choice([0.5, -1.5, 2.5])]))
+    d.surfs.append(D.Surf(ids[4], 'pz', [rng.choice([0.5, -2.5, 3.5])]))
+    d.surfs.append(D.Surf(ids[5], 's', [rng.choice(HALF), 0.5, rng.choice(HALF), 2.0]))
+    d.surfs.append(D.Surf(ids[6], 'cx', [1.5]))
+    d.surfs.append(D.Surf(ids[7], 'so', [9.5]))
+    sg = lambda i: ('s', ids[i] if rng.random() < 0.5 else -ids[i])   # noqa
+    def member():
+        a, b, c = rng.sample(range(0, 7), 3)
+        return ('i', ('u', sg(a), sg(b)), sg(c)) if rng.random() < 0.5 else ('i', sg(c), ('u', sg(a), sg(b)))
+    e = member()
+    for _ in range(rng.randint(1, 2)):
+        e = ('u', e, member())
+    cids = rng.sample(range(1, 30), 3)
+    c1 = D.Cell(cids[0], ('i', e, ('s', -ids[7])), mat=1, rho='-1.0')
+    c2 = D.Cell(cids[1], ('i', ('cc', cids[0]), ('s', -ids[7])), mat=2, rho='-2.0')
+    c3 = D.Cell(cids[2], ('s', ids[7]), mat=0, imp=0)
+    cells = [c1, c2, c3]
+    rng.shuffle(cells)
+    d.cells = cells
+    d.mats = {1: [('13027', '1.0')], 2: [('26056', '-0.9'), ('6012', '-0.1')]}
+    return d
